@@ -658,3 +658,69 @@ Example C16_qr_object_reuse_nonvacuous :
   DirectSpec.vec_eqb (fst (fst (obj_solve 2 3 3 1 A2 b2 false o1))) [qc 1 1; qc 2 1; qc 2 1] = true /\
   DirectSpec.vec_eqb (fst (fst (obj_solve 2 3 3 1 A2 b2 false qr_new))) [qc 1 1; qc 2 1; qc 2 1] = true.
 Proof. vm_compute. repeat split; reflexivity. Qed.
+
+(* ====================================================================================== *)
+(* A3-C.  The small-matrix inverse is TWO-SIDED (proofs: InverseTwoSided.v).
+   Over a field with decidable equality a right inverse of an n x n matrix is a left inverse; hence whenever
+   detail::inverse passes its assertion the returned array B satisfies B A = I as well as A B = I
+   (C16_inverse_exact), for every n, every scratch array, every pivot sequence.  No order, no hypothesis about
+   sabs/sltb: the "injective => surjective" step runs the verified elimination itself on B over the same field
+   re-equipped with the pivot order 0 < (everything else) (InverseTwoSided.PivS).
+   With the order hypotheses of A3-B (true at Qc) inverse() also succeeds on its own result and returns the
+   original array.  At the block value type static_matrix<T,b,b> (BlockInst.BlockS) this removes the hypothesis
+   "sinv (sinv x) <> 0" of NcRingBlockInv.BlockS_inv_two_sided. *)
+From Amgcl Require Import BlockInst NcRing NcRingBlock NcRingBlockInv InverseTwoSided.
+
+Theorem C16_right_inverse_is_left_inverse (S : Scalar) (Sft : Sfield S) (Seqb : seqb_spec S) n (A B : nat -> nat -> S) :
+  (forall i j, i < n -> j < n -> sumn (fun k => A i k * B k j) n = if Nat.eqb i j then s1 else s0) ->
+  forall i j, i < n -> j < n -> sumn (fun k => B i k * A k j) n = if Nat.eqb i j then s1 else s0.
+Proof. exact (right_inverse_is_left_inverse S Sft Seqb n A B). Qed.
+Print Assumptions C16_right_inverse_is_left_inverse.
+
+Theorem C16_inverse_exact_left (S : Scalar) (Sft : Sfield S) (Seqb : seqb_spec S) (sinv_0 : sinv (@s0 S) = s0)
+  n (A t B : vec S) :
+  length A = (n * n)%nat -> length t = (n * n)%nat -> inverse n A t = Some B ->
+  forall i j, i < n -> j < n -> mat_mul_get n B A i j = if Nat.eqb i j then s1 else s0.
+Proof. exact (inverse_exact_left S Sft Seqb sinv_0 n A t B). Qed.
+Print Assumptions C16_inverse_exact_left.
+
+Theorem C16_inverse_two_sided_field (S0 : Scalar) (b : nat) (Sft : Sfield S0) (Seqb : seqb_spec S0)
+  (sinv_0 : sinv (@s0 S0) = s0) (x : BlockS S0 b) :
+  sinv x <> s0 -> x * sinv x = s1 /\ sinv x * x = s1.
+Proof. exact (BlockS_inv_two_sided_field S0 b Sft Seqb sinv_0 x). Qed.
+Print Assumptions C16_inverse_two_sided_field.
+
+Theorem C16_inverse_of_inverse_Qc n (A t B t' : vec QcS) :
+  length A = (n * n)%nat -> length t = (n * n)%nat -> length t' = (n * n)%nat ->
+  inverse n A t = Some B -> inverse n B t' = Some A.
+Proof.
+  exact (inverse_of_inverse QcS_field QcS_eqb eq_refl QcS_lt_irrefl QcS_lt_trans QcS_abs_0 QcS_abs_pos n A t B t').
+Qed.
+Print Assumptions C16_inverse_of_inverse_Qc.
+
+(* BlockS_inv_two_sided without its second hypothesis, closed at the exact rationals for every block size *)
+Theorem C16_inverse_two_sided (b : nat) (x : BlockS QcS b) :
+  sinv x <> s0 -> x * sinv x = s1 /\ sinv x * x = s1 /\ sinv (sinv x) <> s0 /\ sinv (sinv x) = x.
+Proof.
+  exact (BlockS_inv_two_sided_ord QcS b QcS_field QcS_eqb eq_refl QcS_lt_irrefl QcS_lt_trans QcS_abs_0 QcS_abs_pos x).
+Qed.
+Print Assumptions C16_inverse_two_sided.
+
+(* non-vacuity: the non-symmetric 3 x 3 block [[0,2,1],[1,1,0],[3,0,1]] (det = -5).  Its (0,0) entry is zero and
+   the pivot search of column 0 selects row 2 (|3| is largest), so the elimination exchanges rows; math::inverse
+   passes its assertion, returns [[-1,2,1],[1,3,-1],[3,-6,2]]/5, and this block is a left inverse, a right
+   inverse, and is inverted back to the original block *)
+Example C16_inverse_two_sided_nonvacuous :
+  let x : BlockS QcS 3 :=
+    mk_blk QcS 3 [qc 0 1; qc 2 1; qc 1 1;  qc 1 1; qc 1 1; qc 0 1;  qc 3 1; qc 0 1; qc 1 1] eq_refl in
+  find_pivot 3 (blk_list x) (seq 0 3) 0 = 2 /\
+  sinv x <> s0 /\
+  DirectSpec.vec_eqb (blk_list (sinv x))
+    [qc (-1) 5; qc 2 5; qc 1 5;  qc 1 5; qc 3 5; qc (-1) 5;  qc 3 5; qc (-6) 5; qc 2 5] = true /\
+  seqb (sinv x * x) s1 = true /\ seqb (x * sinv x) s1 = true /\ seqb (sinv (sinv x)) x = true /\
+  seqb (sadj x) x = false.
+Proof.
+  cbv zeta. split; [vm_compute; reflexivity|]. split.
+  - intro H. apply (BlockS_eqb QcS 3 QcS_eqb) in H. vm_compute in H. discriminate H.
+  - vm_compute. repeat split; reflexivity.
+Qed.
